@@ -14,8 +14,9 @@ checks, na = [], []
 for p in props:
     pid = p["id"]
     path = os.path.join(ROOT, "vmon", "checks", pid.lower() + ".py")
-    if not os.path.exists(path):
-        na.append({"property_id": pid, "reason": "monitor not built yet (planned, see DESIGN.md section 5)"})
+    ready = set(open(os.path.join(ROOT, "vmon", "ready.txt")).read().split())
+    if not os.path.exists(path) or pid not in ready:
+        na.append({"property_id": pid, "reason": "monitor still being built and validated (planned, see DESIGN.md section 5); not claimed at this commit"})
         continue
     mod = importlib.import_module("vmon.checks." + pid.lower())
     checks.append({
